@@ -468,6 +468,239 @@ fn gen_pair(rng: &mut Rng, m: u64, boundary: bool) -> (u32, u32, &'static str) {
     (p.min(max) as u32, l.min(max) as u32, c)
 }
 
+
+// ------------------------------------------------------------------------------------------------
+// case plans
+// ------------------------------------------------------------------------------------------------
+#[derive(Clone, Debug)]
+enum Plan {
+    /// host function `fi` with its (ptr,len) pairs in read order
+    Read { fi: usize, pairs: Vec<(u32, u32)>, classes: Vec<String> },
+    /// the i64 returned by the export
+    Ret { p: u32, l: u32, class: String },
+    /// buffer_consume(id, dest) with the runtime holding `data` under id (or not), or the test-only write of `len` zeros
+    Write { use_test: bool, dest: u32, len: u32, id: u32, present: bool, class: String, data: Vec<u8>, data_coq: String },
+}
+#[derive(Clone, Debug)]
+struct Cfg {
+    init_pages: u64,
+    grow: u64,
+    seed: u64,
+    plan: Plan,
+    /// class name of a deterministic boundary case
+    det: Option<String>,
+}
+
+fn random_cfg(rng: &mut Rng, fns: &[HostFn], consume_idx: Option<usize>, test_write_idx: Option<usize>) -> Cfg {
+    // memory: initial pages 1..3, grown by 0..2
+    let init_pages = rng.range(1, 3);
+    let grow = if rng.chance(1, 3) { rng.range(1, 2) } else { 0 };
+    let m = (init_pages + grow) * PAGE;
+    let seed = rng.below(256);
+    let kind = rng.below(100);
+    let plan = if kind < 62 || consume_idx.is_none() {
+        let readers: Vec<usize> = (0..fns.len()).filter(|k| !fns[*k].native.reads.is_empty()).collect();
+        let fi = *rng.pick(&readers);
+        let npairs = fns[fi].native.reads.len();
+        let all_inside = rng.chance(1, 4);
+        let bad = rng.usize_below(npairs);
+        let mut pairs = Vec::new();
+        let mut classes = Vec::new();
+        for k in 0..npairs {
+            let boundary = !all_inside && (k == bad || rng.chance(1, 6));
+            let (p, l, c) = gen_pair(rng, m, boundary);
+            pairs.push((p, l));
+            classes.push(c.to_string());
+        }
+        Plan::Read { fi, pairs, classes }
+    } else if kind < 72 {
+        let bd = !rng.chance(1, 4);
+        let (p, l, c) = gen_pair(rng, m, bd);
+        Plan::Ret { p, l, class: c.to_string() }
+    } else {
+        let use_test = test_write_idx.is_some() && rng.chance(1, 4);
+        let bd = !rng.chance(1, 4);
+        let (p, l, c) = gen_pair(rng, m, bd);
+        // buffers are host-made: keep them allocatable (<= m + 70000 bytes)
+        let (dest, len) = (p, (l as u64).min(m + 70000) as u32);
+        let id = rng.below(5) as u32;
+        let present = use_test || !rng.chance(1, 8);
+        let tag = rng.below(256);
+        let bytes = if len <= 40 && !use_test { Some(rng.bytes(len as usize)) } else { None };
+        write_plan(use_test, dest, len, id, present, c, tag, bytes)
+    };
+    Cfg { init_pages, grow, seed, plan, det: None }
+}
+
+fn write_plan(use_test: bool, dest: u32, len: u32, id: u32, present: bool, class: &str, tag: u64, explicit: Option<Vec<u8>>) -> Plan {
+    let (data, data_coq) = if use_test {
+        (vec![0u8; len as usize], format!("DZero {}", len))
+    } else if let Some(b) = explicit {
+        let c = format!("DBytes {}", coq_bytes(&b));
+        (b, c)
+    } else {
+        ((0..len as u64).map(|j| dat_byte(tag, j)).collect(), format!("DPat {} {}", tag, len))
+    };
+    Plan::Write { use_test, dest, len, id, present, class: class.to_string(), data, data_coq }
+}
+
+/// The deterministic boundary family: identical for every seed, one class name per kind of case,
+/// a floor on every class.  It walks the comparisons of read_memory / write_memory / read_slice /
+/// consume_buffer: equality and +-1 at the memory size (for each memory size incl. grown memories,
+/// where the bound must follow the CURRENT size), empty ranges at size and size+1, first/last byte,
+/// u32 extremes and ptr+len around 2^32, and every (ptr,len) pair of every host function at the exact
+/// end (Ok) and one byte beyond (error) with distinct lengths per pair.
+fn det_family(fns: &[HostFn], consume_idx: Option<usize>, test_write_idx: Option<usize>) -> Vec<Cfg> {
+    let mut v: Vec<Cfg> = Vec::new();
+    let max = u32::MAX as u64;
+    let mems: [(u64, u64); 5] = [(1, 0), (2, 0), (3, 0), (1, 1), (2, 2)];
+    let single = (0..fns.len()).find(|k| fns[*k].native.reads.len() == 1 && fns[*k].visible).expect("a single-pair host function");
+    let mut seedc = 0u64;
+    let mut push = |v: &mut Vec<Cfg>, mem: (u64, u64), plan: Plan, class: &str| {
+        seedc += 1;
+        v.push(Cfg { init_pages: mem.0, grow: mem.1, seed: (seedc * 37) % 256, plan, det: Some(format!("det_{}", class)) });
+    };
+    // ---- read_memory through a single-pair host function, every memory size
+    for mem in mems {
+        let m = (mem.0 + mem.1) * PAGE;
+        let mut rd: Vec<(u64, u64, &str)> = vec![
+            (m - 7, 7, "read_end_exact"),
+            (m - 7, 8, "read_end_plus_1"),
+            (m - 7, 6, "read_end_minus_1"),
+            (m, 0, "read_empty_at_size"),
+            (m + 1, 0, "read_empty_at_size_plus_1"),
+            (m, 1, "read_ptr_eq_size_len_1"),
+            (0, 0, "read_empty_at_0"),
+            (0, 1, "read_first_byte"),
+            (m - 1, 1, "read_last_byte"),
+            (m - 1, 2, "read_last_byte_plus_1"),
+            (0, m, "read_whole_memory"),
+            (0, m + 1, "read_whole_memory_plus_1"),
+            (1, m - 1, "read_whole_memory_from_1"),
+            (max, 0, "read_ptr_u32_max_len_0"),
+            (max, 1, "read_ptr_u32_max_len_1"),
+            (0, max, "read_len_u32_max_ptr_0"),
+            (max, max, "read_ptr_and_len_u32_max"),
+            (m, max - m, "read_sum_2_32_minus_1"),
+            (m - 1, (1u64 << 32) - (m - 1), "read_sum_2_32"),
+            (1, max, "read_sum_2_32_ptr_1"),
+            (m - 1, (1u64 << 32) - (m - 1) + 1, "read_sum_2_32_plus_1"),
+            (PAGE, 0, "read_page_multiple_len_0"),
+        ];
+        if mem.1 > 0 {
+            let init = mem.0 * PAGE;
+            rd.push((init, 1, "read_grown_first_byte_of_grown_part"));
+            rd.push((init - 3, 6, "read_grown_straddles_old_end"));
+            rd.push((init, m - init, "read_grown_whole_grown_part"));
+            rd.push((init, m - init + 1, "read_grown_whole_grown_part_plus_1"));
+        } else {
+            // the same pointer that is valid after memory.grow is invalid without it
+            rd.push((m, 1, "read_ungrown_first_byte_beyond"));
+        }
+        for (p, l, c) in rd {
+            push(&mut v, mem, Plan::Read { fi: single, pairs: vec![(p as u32, l as u32)], classes: vec![c.to_string()] }, c);
+        }
+    }
+    // ---- every (ptr,len) pair of every host function at the exact end and one beyond; the other
+    // pairs are inside with pairwise distinct lengths (a pair read with another pair's length shows)
+    for (fi, f) in fns.iter().enumerate() {
+        let n = f.native.reads.len();
+        for k in 0..n {
+            for plus in [0u64, 1] {
+                let m = PAGE;
+                let mut pairs = Vec::new();
+                for j in 0..n {
+                    if j == k {
+                        let l = 11 + j as u64;
+                        pairs.push(((m - l + plus) as u32, l as u32));
+                    } else {
+                        pairs.push((100 * (j as u32 + 1), 3 + j as u32));
+                    }
+                }
+                let c = if plus == 0 { "fn_pair_end_exact" } else { "fn_pair_end_plus_1" };
+                push(&mut v, (1, 0), Plan::Read { fi, pairs, classes: vec![c.to_string(); n] }, c);
+            }
+        }
+        if n >= 2 {
+            // all pairs at the exact end at once; and only the LAST pair empty at size+1
+            let m = 2 * PAGE;
+            let pairs: Vec<(u32, u32)> = (0..n).map(|j| ((m - 5 - j as u64) as u32, 5 + j as u32)).collect();
+            push(&mut v, (1, 1), Plan::Read { fi, pairs, classes: vec!["fn_all_pairs_end_exact".to_string(); n] }, "fn_all_pairs_end_exact");
+            let mut pairs: Vec<(u32, u32)> = (0..n).map(|j| (7 * j as u32, 2 + j as u32)).collect();
+            pairs[n - 1] = ((m + 1) as u32, 0);
+            push(&mut v, (1, 1), Plan::Read { fi, pairs, classes: vec!["fn_last_pair_empty_at_size_plus_1".to_string(); n] }, "fn_last_pair_empty_at_size_plus_1");
+        }
+    }
+    // ---- read_slice: the i64 returned by the export, ptr in the high half, len in the low half
+    for mem in [(1u64, 0u64), (1, 1), (3, 0)] {
+        let m = (mem.0 + mem.1) * PAGE;
+        for (p, l, c) in [
+            (m - 5, 5, "ret_end_exact"),
+            (m - 5, 6, "ret_end_plus_1"),
+            (m, 0, "ret_empty_at_size"),
+            (m + 1, 0, "ret_empty_at_size_plus_1"),
+            (0, 0, "ret_zero"),
+            (0, 1, "ret_first_byte"),
+            (m - 1, 1, "ret_last_byte"),
+            (5, 3, "ret_small_asymmetric"),
+            (3, 5, "ret_small_asymmetric_swapped"),
+            (1u64 << 31, 0, "ret_sign_bit_ptr"),
+            (0, 1u64 << 31, "ret_sign_bit_len"),
+            (max, max, "ret_all_ones"),
+            (m - 1, (1u64 << 32) - (m - 1), "ret_sum_2_32"),
+        ] {
+            push(&mut v, mem, Plan::Ret { p: p as u32, l: l as u32, class: c.to_string() }, c);
+        }
+    }
+    // ---- write_memory through buffer_consume (the runtime holds the buffer under id 3)
+    if consume_idx.is_some() {
+        for mem in [(1u64, 0u64), (2, 0), (1, 1)] {
+            let m = (mem.0 + mem.1) * PAGE;
+            let mut wr: Vec<(u64, u64, &str)> = vec![
+                (m - 9, 9, "write_end_exact"),
+                (m - 9, 10, "write_end_plus_1"),
+                (m - 9, 8, "write_end_minus_1"),
+                (m, 0, "write_empty_at_size"),
+                (m + 1, 0, "write_empty_at_size_plus_1"),
+                (0, 0, "write_empty_at_0"),
+                (0, 1, "write_first_byte"),
+                (m - 1, 1, "write_last_byte"),
+                (m - 1, 2, "write_last_byte_plus_1"),
+                (m, 1, "write_dest_eq_size_len_1"),
+                (0, m, "write_whole_memory"),
+                (0, m + 1, "write_whole_memory_plus_1"),
+                (max, 0, "write_dest_u32_max_len_0"),
+                (max, 1, "write_dest_u32_max_len_1"),
+                (max - 4, 5, "write_dest_plus_len_2_32"),
+                (m - 300, 300, "write_end_exact_300"),
+                (m - 300, 301, "write_end_plus_1_300"),
+            ];
+            if mem.1 > 0 {
+                let init = mem.0 * PAGE;
+                wr.push((init, 4, "write_grown_first_bytes_of_grown_part"));
+                wr.push((init - 2, 4, "write_grown_straddles_old_end"));
+            }
+            for (d, l, c) in wr {
+                let bytes = if l <= 40 { Some((0..l).map(|j| (0xA0 + j) as u8).collect()) } else { None };
+                push(&mut v, mem, write_plan(false, d as u32, l as u32, 3, true, c, 17, bytes), c);
+            }
+            push(&mut v, mem, write_plan(false, 16, 4, 2, false, "write_unknown_buffer_id", 0, Some(vec![1, 2, 3, 4])), "write_unknown_buffer_id");
+        }
+    }
+    if test_write_idx.is_some() {
+        let m = PAGE;
+        for (d, l, c) in [
+            (m - 6, 6, "testwrite_end_exact"),
+            (m - 6, 7, "testwrite_end_plus_1"),
+            (m, 0, "testwrite_empty_at_size"),
+            (m + 1, 0, "testwrite_empty_at_size_plus_1"),
+        ] {
+            push(&mut v, (1, 0), write_plan(true, d as u32, l as u32, 0, true, c, 0, None), c);
+        }
+    }
+    v
+}
+
 struct Inst {
     inst: WasmiInstance,
     seen: Rc<RefCell<Seen>>,
@@ -509,14 +742,26 @@ fn main() {
     let consume_idx = fns.iter().position(|f| !f.native.writes.is_empty() && f.visible);
     let test_write_idx = fns.iter().position(|f| !f.native.writes.is_empty() && !f.visible);
 
+
+    // ---- the cases: the deterministic boundary family (identical for every seed) first, then the random stream
+    let mut cfgs: Vec<Cfg> = det_family(&fns, consume_idx, test_write_idx);
+    let det_count = cfgs.len();
+    let mut det_floor: BTreeMap<String, u64> = BTreeMap::new();
+    for c in &cfgs {
+        *det_floor.entry(c.det.clone().unwrap()).or_insert(0) += 1;
+    }
     for i in 0..args.cases {
         let mut rng = root.fork(i as u64);
-        // memory: initial pages 1..3, grown by 0..2
-        let init_pages = rng.range(1, 3);
-        let grow = if rng.chance(1, 3) { rng.range(1, 2) } else { 0 };
+        cfgs.push(random_cfg(&mut rng, &fns, consume_idx, test_write_idx));
+    }
+    report.extra.insert("deterministic_boundary_cases".into(), json!(det_count));
+
+    for (i, cfg) in cfgs.iter().enumerate() {
+        // window sampling randomness (the deterministic family uses a fixed stream)
+        let mut rng = if i < det_count { Rng::new(47).fork(i as u64) } else { root.fork((i - det_count) as u64).fork(77) };
+        let (init_pages, grow, seed) = (cfg.init_pages, cfg.grow, cfg.seed);
         let pages = init_pages + grow;
         let m = pages * PAGE;
-        let seed = rng.below(256);
         let seen = Rc::new(RefCell::new(Seen::default()));
         let mut hash = [0u8; 32];
         hash[0] = init_pages as u8;
@@ -527,7 +772,7 @@ fn main() {
         }
         assert_eq!(it.call("init", vec![seed]).0, Obs::Ok);
         let pre: Vec<u8> = (0..m).map(|j| pat_byte(seed, j)).collect();
-        let input_base = json!({"case": i, "pages": pages, "grown": grow, "seed": seed});
+        let input_base = json!({"case": i, "pages": pages, "grown": grow, "seed": seed, "class": cfg.det});
         {
             let (o, d) = it.call("dump", vec![]);
             if o != Obs::Ok || d.as_deref() != Some(&pre[..]) {
@@ -535,206 +780,168 @@ fn main() {
             }
         }
         report.count(&format!("pages_{}", pages));
+        if let Some(c) = &cfg.det {
+            report.count(c);
+        }
+        let det_tag = cfg.det.clone().unwrap_or_default();
 
-        // which kind of call
-        let kind = rng.below(100);
         let (canon, nontrivial, case_term, what): (String, bool, String, Option<(String, serde_json::Value)>);
         let coq_cost: u64;
         let mut expect_post = pre.clone();
-        if kind < 62 || consume_idx.is_none() {
-            // ---- a reading host function
-            let readers: Vec<usize> = (0..fns.len()).filter(|k| !fns[*k].native.reads.is_empty()).collect();
-            let fi = *rng.pick(&readers);
-            let f = &fns[fi];
-            let npairs = f.native.reads.len();
-            let all_inside = rng.chance(1, 4);
-            let bad = rng.usize_below(npairs);
-            let mut argv = vec![0u64; f.native.params.len()];
-            let mut pairs = Vec::new();
-            let mut classes = Vec::new();
-            for (k, (pi, li)) in f.native.reads.iter().enumerate() {
-                let boundary = !all_inside && (k == bad || rng.chance(1, 6));
-                let (p, l, c) = gen_pair(&mut rng, m, boundary);
-                argv[*pi] = p as u64;
-                argv[*li] = l as u64;
-                pairs.push((p, l));
-                classes.push(c);
-            }
-            for (k, (n, _)) in f.native.params.iter().enumerate() {
-                if !f.native.ptr_params.contains(&k) && !f.native.len_params.contains(&k) {
-                    argv[k] = 0; // handles, flags, module ids
+        match &cfg.plan {
+            Plan::Read { fi, pairs, classes } => {
+                let fi = *fi;
+                let f = &fns[fi];
+                let mut argv = vec![0u64; f.native.params.len()];
+                for (k, (pi, li)) in f.native.reads.iter().enumerate() {
+                    argv[*pi] = pairs[k].0 as u64;
+                    argv[*li] = pairs[k].1 as u64;
                 }
-            }
-            seen.borrow_mut().calls.clear();
-            let (o, _) = it.call(&format!("f{}", fi), argv.clone());
-            let calls = std::mem::take(&mut seen.borrow_mut().calls);
-            for c in &classes {
-                report.count(&format!("pair_{}", c));
-            }
-            report.count(&format!("fn_{}", f.import));
-            // oracle
-            let in_range = |p: u32, l: u32| (p as u64) + (l as u64) <= m;
-            let all_in = pairs.iter().all(|(p, l)| in_range(*p, *l));
-            let input = json!({"case": i, "fn": f.import, "pages": pages, "grown": grow, "seed": seed, "pairs": pairs, "outcome": format!("{:?}", o)});
-            let mut w: Option<String> = None;
-            match (&o, all_in) {
-                (Obs::Panic, _) => w = Some("host function panicked".into()),
-                (Obs::Ok, false) => w = Some("call succeeded although a (ptr,len) range leaves the memory".into()),
-                (Obs::Mae, true) => w = Some("MemoryAccessError although every range is inside the memory".into()),
-                (Obs::Ok, true) => {
-                    if f.visible {
-                        let expect: Vec<Vec<u8>> = pairs.iter().map(|(p, l)| pre[*p as usize..(*p as usize + *l as usize)].to_vec()).collect();
-                        if calls.len() != 1 || calls[0].1 != expect {
-                            w = Some("the runtime did not receive exactly memory[ptr..ptr+len) for every pair".into());
+                seen.borrow_mut().calls.clear();
+                let (o, _) = it.call(&format!("f{}", fi), argv.clone());
+                let calls = std::mem::take(&mut seen.borrow_mut().calls);
+                for c in classes {
+                    report.count(&format!("pair_{}", c));
+                }
+                report.count(&format!("fn_{}", f.import));
+                // oracle
+                let in_range = |p: u32, l: u32| (p as u64) + (l as u64) <= m;
+                let all_in = pairs.iter().all(|(p, l)| in_range(*p, *l));
+                let input = json!({"case": i, "class": det_tag, "fn": f.import, "pages": pages, "grown": grow, "seed": seed, "pairs": pairs, "outcome": format!("{:?}", o)});
+                let mut w: Option<String> = None;
+                match (&o, all_in) {
+                    (Obs::Panic, _) => w = Some("host function panicked".into()),
+                    (Obs::Ok, false) => w = Some("call succeeded although a (ptr,len) range leaves the memory".into()),
+                    (Obs::Mae, true) => w = Some("MemoryAccessError although every range is inside the memory".into()),
+                    (Obs::Ok, true) => {
+                        if f.visible {
+                            let expect: Vec<Vec<u8>> = pairs.iter().map(|(p, l)| pre[*p as usize..(*p as usize + *l as usize)].to_vec()).collect();
+                            if calls.len() != 1 || calls[0].1 != expect {
+                                w = Some("the runtime did not receive exactly memory[ptr..ptr+len) for every pair".into());
+                            }
                         }
                     }
+                    (Obs::Mae, false) => {
+                        if !calls.is_empty() {
+                            w = Some("runtime was called although the access failed".into());
+                        }
+                    }
+                    (other, _) => w = Some(format!("unexpected outcome {:?}", other)),
                 }
-                (Obs::Mae, false) => {
-                    if !calls.is_empty() {
-                        w = Some("runtime was called although the access failed".into());
+                report.count(match &o {
+                    Obs::Ok => "read_ok",
+                    Obs::Mae => "read_mae",
+                    _ => "read_other",
+                });
+                let digests: Vec<String> = if f.visible && o == Obs::Ok && calls.len() == 1 { calls[0].1.iter().map(|v| digest_coq(v)).collect() } else { vec![] };
+                coq_cost = if o == Obs::Ok { pairs.iter().map(|(_, l)| *l as u64).sum() } else { 0 };
+                canon = format!("{}|{}|{:?}", f.import, m, pairs);
+                nontrivial = classes.iter().any(|c| c != "inside_small");
+                case_term = format!(
+                    "CHost {}%string {} {} {} {} ({})",
+                    coq_string(&f.import),
+                    coq_bool(f.visible),
+                    pages,
+                    seed,
+                    coq_list(pairs.iter().map(|(p, l)| format!("({}, {})", p, l))),
+                    obs_coq(&o, &digests)
+                );
+                what = w.map(|x| (x, input));
+            }
+            Plan::Ret { p, l, class } => {
+                let (p, l) = (*p, *l);
+                let v = ((p as u64) << 32) | l as u64;
+                let (o, d) = it.call("ret", vec![v]);
+                report.count(&format!("pair_{}", class));
+                report.count("fn_<return slice>");
+                let inr = (p as u64) + (l as u64) <= m;
+                let input = json!({"case": i, "class": det_tag, "fn": "return slice", "pages": pages, "grown": grow, "seed": seed, "pairs": [(p, l)], "outcome": format!("{:?}", o)});
+                let w = match (&o, inr) {
+                    (Obs::Panic, _) => Some("invoke_export panicked reading the returned slice".to_string()),
+                    (Obs::Ok, true) => {
+                        if d.as_deref() != Some(&pre[p as usize..p as usize + l as usize]) {
+                            Some("returned bytes differ from memory[ptr..ptr+len)".to_string())
+                        } else {
+                            None
+                        }
+                    }
+                    (Obs::Mae, false) => None,
+                    (Obs::Ok, false) => Some("slice outside the memory was read".to_string()),
+                    (Obs::Mae, true) => Some("MemoryAccessError for a slice inside the memory".to_string()),
+                    (other, _) => Some(format!("unexpected outcome {:?}", other)),
+                };
+                report.count(match &o {
+                    Obs::Ok => "read_ok",
+                    Obs::Mae => "read_mae",
+                    _ => "read_other",
+                });
+                let digests: Vec<String> = d.iter().map(|v| digest_coq(v)).collect();
+                coq_cost = if o == Obs::Ok { l as u64 } else { 0 };
+                canon = format!("ret|{}|{},{}", m, p, l);
+                nontrivial = class != "inside_small";
+                case_term = format!("CReturn {} {} {} ({})", pages, seed, v, obs_coq(&o, &digests));
+                what = w.map(|x| (x, input));
+            }
+            Plan::Write { use_test, dest, len, id, present, class, data, data_coq } => {
+                let (use_test, dest, len, id, present) = (*use_test, *dest, *len, *id, *present);
+                let fi = if use_test { test_write_idx.unwrap() } else { consume_idx.unwrap() };
+                let f = &fns[fi];
+                let mut argv = vec![0u64; f.native.params.len()];
+                if use_test {
+                    argv[f.native.writes[0]] = dest as u64;
+                    let li = f.native.len_params[0];
+                    argv[li] = len as u64;
+                } else {
+                    argv[f.native.writes[0]] = dest as u64;
+                    let idp = (0..f.native.params.len()).find(|k| *k != f.native.writes[0]).expect("buffer id parameter");
+                    argv[idp] = id as u64;
+                    if present {
+                        seen.borrow_mut().bufs.insert(id, data.clone());
                     }
                 }
-                (other, _) => w = Some(format!("unexpected outcome {:?}", other)),
-            }
-            report.count(match &o {
-                Obs::Ok => "read_ok",
-                Obs::Mae => "read_mae",
-                _ => "read_other",
-            });
-            let digests: Vec<String> = if f.visible && o == Obs::Ok && calls.len() == 1 { calls[0].1.iter().map(|v| digest_coq(v)).collect() } else { vec![] };
-            coq_cost = if o == Obs::Ok { pairs.iter().map(|(_, l)| *l as u64).sum() } else { 0 };
-            canon = format!("{}|{}|{:?}", f.import, m, pairs);
-            nontrivial = classes.iter().any(|c| *c != "inside_small");
-            case_term = format!(
-                "CHost {}%string {} {} {} {} ({})",
-                coq_string(&f.import),
-                coq_bool(f.visible),
-                pages,
-                seed,
-                coq_list(pairs.iter().map(|(p, l)| format!("({}, {})", p, l))),
-                obs_coq(&o, &digests)
-            );
-            what = w.map(|x| (x, input));
-        } else if kind < 72 {
-            // ---- the value returned by the export is a Slice read by invoke_export (read_slice)
-            let bd = !rng.chance(1, 4);
-            let (p, l, c) = gen_pair(&mut rng, m, bd);
-            let v = ((p as u64) << 32) | l as u64;
-            let (o, d) = it.call("ret", vec![v]);
-            report.count(&format!("pair_{}", c));
-            report.count("fn_<return slice>");
-            let inr = (p as u64) + (l as u64) <= m;
-            let input = json!({"case": i, "fn": "return slice", "pages": pages, "grown": grow, "seed": seed, "pairs": [(p, l)], "outcome": format!("{:?}", o)});
-            let w = match (&o, inr) {
-                (Obs::Panic, _) => Some("invoke_export panicked reading the returned slice".to_string()),
-                (Obs::Ok, true) => {
-                    if d.as_deref() != Some(&pre[p as usize..p as usize + l as usize]) {
-                        Some("returned bytes differ from memory[ptr..ptr+len)".to_string())
-                    } else {
+                let (o, _) = it.call(&format!("f{}", fi), argv.clone());
+                report.count(&format!("pair_{}", class));
+                report.count(&format!("fn_{}", f.import));
+                let inr = (dest as u64) + (len as u64) <= m;
+                let input = json!({"case": i, "class": det_tag, "fn": f.import, "pages": pages, "grown": grow, "seed": seed, "dest": dest, "len": len, "buffer_id": id, "buffer_present": present, "outcome": format!("{:?}", o)});
+                let mut w = match (&o, present, inr) {
+                    (Obs::Panic, _, _) => Some("host function panicked".to_string()),
+                    (Obs::NotFound(x), false, _) if *x == id => None,
+                    (Obs::Ok, true, true) => {
+                        expect_post[dest as usize..dest as usize + len as usize].copy_from_slice(data);
                         None
                     }
+                    (Obs::Mae, true, false) => None,
+                    (Obs::Ok, true, false) => Some("write outside the memory succeeded".to_string()),
+                    (Obs::Mae, true, true) => Some("MemoryAccessError for a range inside the memory".to_string()),
+                    (other, _, _) => Some(format!("unexpected outcome {:?}", other)),
+                };
+                if !use_test && present && seen.borrow().bufs.contains_key(&id) {
+                    w = w.or(Some("buffer_consume was not called for a present buffer".to_string()));
                 }
-                (Obs::Mae, false) => None,
-                (Obs::Ok, false) => Some("slice outside the memory was read".to_string()),
-                (Obs::Mae, true) => Some("MemoryAccessError for a slice inside the memory".to_string()),
-                (other, _) => Some(format!("unexpected outcome {:?}", other)),
-            };
-            report.count(match &o {
-                Obs::Ok => "read_ok",
-                Obs::Mae => "read_mae",
-                _ => "read_other",
-            });
-            let digests: Vec<String> = d.iter().map(|v| digest_coq(v)).collect();
-            coq_cost = if o == Obs::Ok { l as u64 } else { 0 };
-            canon = format!("ret|{}|{},{}", m, p, l);
-            nontrivial = c != "inside_small";
-            case_term = format!("CReturn {} {} {} ({})", pages, seed, v, obs_coq(&o, &digests));
-            what = w.map(|x| (x, input));
-        } else {
-            // ---- write path: buffer_consume(id, dest) or the test-only write of zeros
-            let use_test = test_write_idx.is_some() && rng.chance(1, 4);
-            let fi = if use_test { test_write_idx.unwrap() } else { consume_idx.unwrap() };
-            let f = &fns[fi];
-            // data length classes relative to dest
-            let (dest, len, c) = {
-                let bd = !rng.chance(1, 4);
-                let (p, l, c) = gen_pair(&mut rng, m, bd);
-                // buffers are host-made: keep them allocatable (<= m + 70000 bytes)
-                (p, (l as u64).min(m + 70000) as u32, c)
-            };
-            let id = rng.below(5) as u32;
-            let present = use_test || !rng.chance(1, 8);
-            let tag = rng.below(256);
-            let explicit = len <= 40;
-            let data: Vec<u8> = if use_test {
-                vec![0u8; len as usize]
-            } else if explicit {
-                rng.bytes(len as usize)
-            } else {
-                (0..len as u64).map(|j| dat_byte(tag, j)).collect()
-            };
-            let mut argv = vec![0u64; f.native.params.len()];
-            if use_test {
-                argv[f.native.writes[0]] = dest as u64;
-                let li = f.native.len_params[0];
-                argv[li] = len as u64;
-            } else {
-                argv[f.native.writes[0]] = dest as u64;
-                let idp = (0..f.native.params.len()).find(|k| *k != f.native.writes[0]).expect("buffer id parameter");
-                argv[idp] = id as u64;
-                if present {
-                    seen.borrow_mut().bufs.insert(id, data.clone());
-                }
+                report.count(match &o {
+                    Obs::Ok => "write_ok",
+                    Obs::Mae => "write_mae",
+                    Obs::NotFound(_) => "write_buffer_not_found",
+                    _ => "write_other",
+                });
+                coq_cost = len as u64;
+                canon = format!("{}|{}|{},{},{},{}", f.import, m, dest, len, id, present);
+                nontrivial = class != "inside_small";
+                // the post-state digest is appended below (needs the dump)
+                case_term = format!(
+                    "CWrite {}%string {} {} {} {} {} ({}) ({})",
+                    coq_string(&f.import),
+                    pages,
+                    seed,
+                    if use_test { "None".to_string() } else { format!("(Some {})", id) },
+                    coq_bool(present),
+                    dest,
+                    data_coq,
+                    obs_coq(&o, &[])
+                );
+                what = w.map(|x| (x, input));
             }
-            let (o, _) = it.call(&format!("f{}", fi), argv.clone());
-            report.count(&format!("pair_{}", c));
-            report.count(&format!("fn_{}", f.import));
-            let inr = (dest as u64) + (len as u64) <= m;
-            let input = json!({"case": i, "fn": f.import, "pages": pages, "grown": grow, "seed": seed, "dest": dest, "len": len, "buffer_id": id, "buffer_present": present, "outcome": format!("{:?}", o)});
-            let mut w = match (&o, present, inr) {
-                (Obs::Panic, _, _) => Some("host function panicked".to_string()),
-                (Obs::NotFound(x), false, _) if *x == id => None,
-                (Obs::Ok, true, true) => {
-                    expect_post[dest as usize..dest as usize + len as usize].copy_from_slice(&data);
-                    None
-                }
-                (Obs::Mae, true, false) => None,
-                (Obs::Ok, true, false) => Some("write outside the memory succeeded".to_string()),
-                (Obs::Mae, true, true) => Some("MemoryAccessError for a range inside the memory".to_string()),
-                (other, _, _) => Some(format!("unexpected outcome {:?}", other)),
-            };
-            if !use_test && present && seen.borrow().bufs.contains_key(&id) {
-                w = w.or(Some("buffer_consume was not called for a present buffer".to_string()));
-            }
-            report.count(match &o {
-                Obs::Ok => "write_ok",
-                Obs::Mae => "write_mae",
-                Obs::NotFound(_) => "write_buffer_not_found",
-                _ => "write_other",
-            });
-            coq_cost = len as u64;
-            canon = format!("{}|{}|{},{},{},{}", f.import, m, dest, len, id, present);
-            nontrivial = c != "inside_small";
-            let data_coq = if use_test {
-                format!("DZero {}", len)
-            } else if explicit {
-                format!("DBytes {}", coq_bytes(&data))
-            } else {
-                format!("DPat {} {}", tag, len)
-            };
-            // the post-state digest is appended below (needs the dump)
-            case_term = format!(
-                "CWrite {}%string {} {} {} {} {} ({}) ({})",
-                coq_string(&f.import),
-                pages,
-                seed,
-                if use_test { "None".to_string() } else { format!("(Some {})", id) },
-                coq_bool(present),
-                dest,
-                data_coq,
-                obs_coq(&o, &[])
-            );
-            what = w.map(|x| (x, input));
         }
         seen.borrow_mut().bufs.clear();
 
@@ -763,11 +970,9 @@ fn main() {
         for _ in 0..6 {
             idxs.push(rng.below(m));
         }
-        if case_term.starts_with("CWrite") {
+        if let Plan::Write { dest, len, .. } = &cfg.plan {
             // around the destination range
-            let parts: Vec<&str> = canon.split('|').collect();
-            let nums: Vec<u64> = parts[2].split(',').take(2).map(|x| x.parse().unwrap()).collect();
-            let (d, l) = (nums[0], nums[1]);
+            let (d, l) = (*dest as u64, *len as u64);
             for k in 0..6u64 {
                 for base in [d, d + l] {
                     if base + k < m {
@@ -799,10 +1004,14 @@ fn main() {
         } else {
             report.count("coq_skipped_large_vectors_oracle_only");
         }
-        if i < 3 {
+        if i < 3 || (i >= det_count && i < det_count + 2) {
             report.sample(json!({"case": case_term.chars().take(300).collect::<String>()}));
         }
     }
+    for (c, n) in &det_floor {
+        report.floor(c, *n);
+    }
+
     // ---- layer B: the real ScryptoRuntime buffer table inside transactions ----
     {
         use engine_probe::{Outcome, Probe};
@@ -868,6 +1077,86 @@ fn main() {
                 idx += 1;
             }
             report.extra.insert(format!("engine_probe_round_{}", round), json!({"value_len": vlen, "live_id": prior, "transactions": p.runs}));
+        }
+        // ---- deterministic buffer-table scripts in the real ScryptoRuntime (max 4 live buffers;
+        // the frame starts with the argument buffer id 0 live)
+        {
+            use engine_probe::{SOp, ScriptProbe, ALLOC_LEN, ARGS_LEN};
+            use SOp::{Alloc as A, Consume as C};
+            let d = 1024u32;
+            let mp = PAGE as u32; // the script module has one page
+            let scripts: Vec<(&str, Vec<SOp>)> = vec![
+                ("script_double_consume", vec![C(0, d), C(0, d)]),
+                ("script_consume_once_ok", vec![C(0, d)]),
+                ("script_unknown_id_next", vec![C(1, d)]),
+                ("script_unknown_id_far", vec![C(7, d)]),
+                ("script_unknown_id_u32_max", vec![C(u32::MAX, d)]),
+                ("script_live_max_minus_1", vec![A, A]),
+                ("script_live_exactly_max", vec![A, A, A]),
+                ("script_live_max_plus_1", vec![A, A, A, A]),
+                ("script_consume_frees_slot", vec![A, A, A, C(2, d), A]),
+                ("script_consume_frees_one_slot_only", vec![A, A, A, C(2, d), A, A]),
+                ("script_ids_not_reused", vec![A, C(1, d), A, C(2, d), A, C(3, d), A, C(4, d), A, C(5, d), C(1, d)]),
+                ("script_total_allocations_beyond_max", vec![C(0, d), A, C(1, d), A, C(2, d), A, C(3, d), A, C(4, d), A, C(5, d)]),
+                ("script_consume_order_middle_first", vec![A, A, A, C(1, d), C(3, d), C(2, d), C(0, d)]),
+                ("script_consume_order_first_first", vec![A, A, A, C(0, d), C(3, d), C(1, d), C(2, d)]),
+                ("script_consume_last_twice", vec![A, A, A, C(3, d), C(3, d)]),
+                ("script_consume_moved_entry_after_swap_remove", vec![A, A, A, C(0, d), C(3, d), C(3, d)]),
+                ("script_write_end_exact", vec![A, C(1, mp - ALLOC_LEN as u32)]),
+                ("script_write_end_plus_1", vec![A, C(1, mp - ALLOC_LEN as u32 + 1)]),
+                ("script_args_write_end_exact", vec![C(0, mp - ARGS_LEN as u32)]),
+                ("script_args_write_end_plus_1", vec![C(0, mp - ARGS_LEN as u32 + 1)]),
+                ("script_write_dest_eq_size", vec![C(0, mp)]),
+                ("script_write_dest_u32_max", vec![C(0, u32::MAX)]),
+                ("script_failed_lookup_before_limit", vec![A, A, A, C(9, d)]),
+            ];
+            let mut sp = ScriptProbe::new(&scripts.iter().map(|(_, o)| o.clone()).collect::<Vec<_>>());
+            for (k, (class, ops)) in scripts.iter().enumerate() {
+                let o = sp.run(k);
+                // oracle: plain replay of the property (ids consecutive from 0, live from allocation to the
+                // first consume, at most 4 live, a write must fit the one-page memory)
+                let mut live: BTreeMap<u32, u64> = BTreeMap::new();
+                live.insert(0, ARGS_LEN);
+                let mut next = 1u32;
+                let mut want = Outcome::Ok;
+                for op in ops {
+                    match op {
+                        SOp::Alloc => {
+                            if live.len() >= 4 {
+                                want = Outcome::TooManyBuffers;
+                                break;
+                            }
+                            live.insert(next, ALLOC_LEN);
+                            next += 1;
+                        }
+                        SOp::Consume(id, dest) => match live.remove(id) {
+                            None => {
+                                want = Outcome::NotFound(*id);
+                                break;
+                            }
+                            Some(len) => {
+                                if *dest as u64 + len > PAGE {
+                                    want = Outcome::MemoryAccessError;
+                                    break;
+                                }
+                            }
+                        },
+                    }
+                }
+                if o != want {
+                    report.oracle_failure(idx, "", &format!("engine script {}: observed {:?}, the buffer-table property demands {:?}", class, o, want), json!({"class": class, "ops": format!("{:?}", ops)}));
+                }
+                report.count(&format!("det_{}", class));
+                report.floor(&format!("det_{}", class), 1);
+                let ops_coq = coq_list(ops.iter().map(|op| match op {
+                    SOp::Alloc => format!("SA {}", ALLOC_LEN),
+                    SOp::Consume(id, dest) => format!("SC {} {}", id, dest),
+                }));
+                cw.push(format!("(CBufScript 4 1 {} {} ({}), (0, 0, []))", ARGS_LEN, ops_coq, obs_of(&o)));
+                report.case(&format!("script|{}", class), true);
+                idx += 1;
+            }
+            report.extra.insert("engine_script_transactions".into(), json!(sp.runs));
         }
         report.floor("engine_consume_live_id", 1);
         report.floor("engine_consume_unknown_id", 10);
